@@ -301,7 +301,7 @@ class Switch(Generic[R], GenerativeFunction[R]):
         retval: R = Diff.tree_primal(retdiff)
 
         if Diff.tree_tangent(idx_diff) == UnknownChange:
-            weight += score - trace.get_score()
+            weight = score - trace.get_score()
 
         # TODO: this is totally wrong, fix in future PR.
         bwd_request: Update = rets[0][3]
